@@ -112,6 +112,10 @@ theorem go_sim {A : Type} {K : Kind A} {S : Kind (List Nat)} {R : A → List Nat
     simp only [Kind.go, h1]
     rw [ih _ _ h2 (fun o ho => hsafe o (List.mem_cons_of_mem _ ho))]
 
+theorem staticToks_sim {A : Type} {K : Kind A} {S : Kind (List Nat)} {R : A → List Nat → Prop} (h : Refines K S R)
+    (op : Op) : K.staticToks op = S.staticToks op := by
+  cases op <;> simp [Kind.staticToks, h.indexes, h.keys, h.labelled, h.newtype, h.dims]
+
 /-- every safe program has the same observation trace on the kind and on the flat specification -/
 theorem run_sim {A : Type} {K : Kind A} {S : Kind (List Nat)} {R : A → List Nat → Prop} (h : Refines K S R)
     (prog : List Op) (hsafe : ∀ op ∈ prog, op.safe S) : K.run prog = S.run prog := by
@@ -119,5 +123,6 @@ theorem run_sim {A : Type} {K : Kind A} {S : Kind (List Nat)} {R : A → List Na
   unfold Kind.run
   cases hk : K.zeros <;> cases hsz : S.zeros <;> rw [hk, hsz] at hz <;> simp only [OutR] at hz
   · exact go_sim h prog _ _ ⟨hz, hz⟩ hsafe
+  all_goals simp [staticToks_sim h]
 
 end SLV.MArr
